@@ -10,7 +10,7 @@
 From Coq Require Import String.
 From Sdns Require Import Common.Base Gen.C10 C10.Model C10.ModelStream C10.ModelShare C10.ModelPool
   C10.Proofs_UdpBase C10.Proofs_UdpInv C10.Proofs_UdpThm C10.Proofs_Stream C10.Proofs_Read C10.Proofs_Share C10.Proofs_Top
-  C10.Proofs_Pool C10.ModelChains C10.Proofs_Chains C10.Proofs_Read C10.Proofs_ConnFrames C10.ModelEdns C10.Proofs_Edns.
+  C10.Proofs_Pool C10.ModelChains C10.Proofs_Chains C10.Proofs_Read C10.Proofs_ConnFrames C10.ModelEdns C10.Proofs_Edns C10.Proofs_UdpStep C10.Proofs_Socks.
 Open Scope nat_scope.
 
 (* ties: the constants the proofs compute with are the source's *)
@@ -220,10 +220,46 @@ Theorem edns_writer_ties :
 Proof. exact (conj edns_fields_tie (conj edns_entry_tie (conj edns_exit_tie edns_sizes))). Qed.
 Print Assumptions edns_writer_ties.
 
+(* SEVERAL SOCKETS on one engine (SO_REUSEPORT group / one socket per bound address, shared slab
+   pool): a flush hands every staged job to exactly one sendGroup, in burst order, and every
+   sendGroup is one socket's (flow = socket * 1024 + client; single_owner, send_belongs_to_lease
+   and no_leftover_reply above are stated over flows, so they cover any number of sockets and
+   readers); with one socket the flush is the single group of the earlier model *)
+Theorem flush_runs_partition : forall s sids,
+  concat (runs_by_sock s sids) = sids /\
+  (forall g, In g (runs_by_sock s sids) -> forall x y, In x g -> In y g -> job_sock s x = job_sock s y).
+Proof. exact flush_runs_lemma. Qed.
+Print Assumptions flush_runs_partition.
+
+Theorem single_socket_is_one_group : forall c s k sids,
+  (forall x, In x sids -> job_sock s x = k) -> flush_events c s sids = group_events c s sids.
+Proof. exact single_socket_one_group. Qed.
+Print Assumptions single_socket_is_one_group.
+
+(* POOLED TRANSPORTS (DoH exchanges, DoQ streams, decoded fallback): every request runs on a chain
+   (and DoQ: a request message) drawn from a pool.  ModelChains with no slabs: for every
+   interleaving of begin (enabled only when the pool hands that object out, or makes a new one) /
+   write / end (put back): a reply reaches the exchange of the request that wrote it, no pooled
+   object has two users, nothing in the pool is in use *)
+Theorem pooled_transports_reply_goes_home : forall l,
+  let s := ksteps (k_init 0) l in
+  (forall r t b, In (r, t, b) (k_log s) -> t = tr_of r) /\
+  NoDup (map snd (k_busy s)) /\
+  (forall c, In c (k_pool s) -> ~ In c (map snd (k_busy s))).
+Proof. intros l. destruct (chains_lemma 0 l) as (A & B & C). split; [exact A|]. split; [exact B|]. intros c Hc. apply (C c Hc). Qed.
+Print Assumptions pooled_transports_reply_goes_home.
+
 Theorem translated_methods :
   (forall w, go_responseWriter_Written w = negb (T_responseWriter_size w =? writer_unwritten_size)%Z) /\
-  (forall s, go_tcpStream_framePrefixBuffered s = (Z.of_N frame_prefix_len <=? T_tcpStream_end s - T_tcpStream_start s)%Z).
-Proof. exact (conj gen_responseWriter_Written gen_framePrefixBuffered). Qed.
+  (forall s, go_tcpStream_framePrefixBuffered s = (Z.of_N frame_prefix_len <=? T_tcpStream_end s - T_tcpStream_start s)%Z) /\
+  (forall b, go_udpTXBurst_full b = (T_udpTXBurst_n b =? Z.of_N udp_tx_max)%Z) /\
+  (forall j cap, go_udpJob_LeaseWire j cap = []) /\
+  doq_release_assigns = map sbytes ["Id"; "Response"; "Opcode"; "Authoritative"; "Truncated"; "RecursionDesired";
+    "RecursionAvailable"; "Zero"; "AuthenticatedData"; "CheckingDisabled"; "Rcode"; "Question"; "Answer"; "Ns"; "Extra"]%string.
+Proof.
+  exact (conj gen_responseWriter_Written (conj gen_framePrefixBuffered (conj gen_udpTXBurst_full
+         (conj (fun j cap => proj1 (gen_udpJob_LeaseWire j cap)) doq_release_tie)))).
+Qed.
 Print Assumptions translated_methods.
 
 (* the base writer (middleware.responseWriter) across requests: Reset assigns EVERY field the struct
@@ -357,4 +393,13 @@ Example chains_example :
            [KBeginWire 1 0; KBeginPool 2 1; KEndWire 1; KBeginWire 3 0; KWrite 2 [7%N]; KWrite 3 [8%N]; KEndPool 2; KEndWire 3;
             KBeginPool 4 1; KWrite 4 [9%N]])
   = [(4, 4%N, [9%N]); (3, 3%N, [8%N]); (2, 2%N, [7%N])].
+Proof. vm_compute. reflexivity. Qed.
+
+(* DoH and DoQ requests overlapping on pooled chains: 1 and 2 in flight, 1 ends, 3 takes 1's chain
+   while 2 is still parked; every reply reaches its own exchange *)
+Example pooled_transports_example :
+  k_log (ksteps (k_init 0)
+           [KBeginPool 1 0; KBeginPool 2 1; KWrite 1 [1%N]; KEndPool 1; KBeginPool 3 0; KWrite 3 [3%N]; KWrite 2 [2%N];
+            KEndPool 2; KEndPool 3])
+  = [(2, 2%N, [2%N]); (3, 3%N, [3%N]); (1, 1%N, [1%N])].
 Proof. vm_compute. reflexivity. Qed.
